@@ -14,16 +14,23 @@ Theorem C18_source_facts :
   callbacks_before_update_sent = true.
 Proof. repeat split; reflexivity. Qed.
 
-(* STRUCT.  Full statement: for every layout and every history, struct and members agree member by member.
-   It fails for a driver assignment to the side from which no callback propagates (Refuted.v, two witnesses);
-   proved: every history of reads, writes, hardware changes and the propagating assignments, in every layout
-   (combined methods: both / read only / write only; per-member methods: any subset) *)
-Theorem C18_struct_agree_except_unpropagated_assign : forall L ops,
-  Forall (LemmasSt.op_wf L) ops -> Forall (LemmasSt.op_safe L) ops ->
+(* STRUCT.  Full statement: for every layout, every fault script and every history, struct and members agree member by
+   member.  It fails (Refuted.v, four witnesses) for a driver assignment to the side from which no callback propagates and
+   for a generated struct read / write loop that a raising member aborts after the cache of an earlier member changed.
+   Proved for every other history (LemmasSt.run_ok: well formed operations, no such assignment, no such abort), in every
+   layout: reads, writes, hardware changes, propagating assignments, and faults of the fake driver - raising member methods
+   in direct access, raising first member (or any member before a change) inside the generated loops, raising combined
+   methods.  The insideRW counter is restored by try/finally (source fact), which is why it is not part of the state. *)
+Theorem C18_struct_agree_except_unpropagated_assign_and_partial_abort : forall L ops,
+  LemmasSt.run_ok L (St.init L) ops ->
   let s := St.run L ops in
   length (St.cst s) = St.sl_n L /\ length (St.cmem s) = St.sl_n L /\
   forall i, i < St.sl_n L -> nth i (St.cst s) 0%Z = nth i (St.cmem s) 0%Z.
-Proof. intros L ops Hw Hs. exact (LemmasSt.struct_agree L ops Hw Hs). Qed.
+Proof. intros L ops Hr. exact (LemmasSt.struct_agree L ops Hr). Qed.
+
+(* while the fault script is empty no loop is ever aborted (the guard above then only excludes the two assignments) *)
+Theorem C18_no_fault_no_partial_abort : forall L s o, LemmasSt.no_faults s -> St.partial_abort L s o = false.
+Proof. intros L s o H. exact (LemmasSt.no_fault_no_abort L s o H). Qed.
 
 (* FLOAT/ENUM.  Full statement: after every history the value given to clients is the table value of the index.
    It fails on the fresh module and after a driver assignment to the float parameter (Refuted.v);
@@ -89,24 +96,36 @@ Theorem C18_limits_in_base_range : forall L ops, (Li.l_lo L <= 0 <= Li.l_hi L)%Z
   forallb (fun o => negb (LemmasLi.is_set o)) ops = true -> LemmasLi.limits_in_base L (Li.run L ops).
 Proof. intros L ops H0 Hn. exact (LemmasLi.run_limits_in_base L ops H0 Hn). Qed.
 
-(* CONTROL.  After every history of target writes on the controllers and on the output and of update_target calls:
-   at most one controller is marked, the output names exactly the marked one, and names self iff nobody is marked *)
-Theorem C18_single_controller : forall n ops, Forall (LemmasCo.op_wf n) ops ->
-  let s := Co.run n ops in
+(* CONTROL.  Controllers of three kinds: plain; switch-off first writes the safe value to the output's target (the output
+   calls self_controlled in the middle of the take-over); switch-off raises while its fault flag is set.
+   Full statement: after every history at most one controller is marked, the output names exactly the marked one, and names
+   self iff nobody is marked.  It fails (Refuted.v) when the output's own target is written while the switch-off of the
+   controlling module raises.  Proved for every other history of target writes (controllers, output), update_target calls
+   and fault script changes - including every take-over through a safe-value writer and every refused take-over. *)
+Theorem C18_single_controller_except_failing_self_controlled : forall kinds ops,
+  LemmasCo.run_ok kinds (Co.init kinds) ops ->
+  let s := Co.run kinds ops in
   (forall j k, nth j (Co.act s) false = true -> nth k (Co.act s) false = true -> j = k) /\
   (forall j, nth j (Co.act s) false = true <-> Co.by_ s = S j) /\
   (Co.by_ s = 0 <-> forall j, nth j (Co.act s) false = false) /\
-  Co.by_ s <= n /\ length (Co.act s) = n.
-Proof. intros n ops Hw. exact (LemmasCo.single_controller n ops Hw). Qed.
+  Co.by_ s <= length kinds /\ length (Co.act s) = length kinds.
+Proof. intros kinds ops Hr. exact (LemmasCo.single_controller kinds ops Hr). Qed.
 
-(* taking over from ANY state: the new controller is the only one marked, the output names it, and every other
-   controller that was marked has been sent control_active = false *)
-Theorem C18_takeover_switches_previous_off : forall s i v, i < length (Co.act s) ->
-  let s' := fst (Co.step s (Co.WriteT i v)) in
-  Co.by_ s' = S i /\ length (Co.act s') = length (Co.act s) /\
-  (forall j, nth j (Co.act s') false = true <-> j = i) /\
-  (forall j, j <> i -> nth j (Co.act s) false = true -> In (10 + 2 * j, [0%Z]) (Co.evs s')).
-Proof. intros s i v Hi. exact (LemmasCo.takeover s i v Hi). Qed.
+(* taking over from any consistent state (so: any reachable one): either the new controller is the only one marked and the
+   output names it, or the switch-off of the previous controller raised, the take-over is refused and NOTHING has changed *)
+Theorem C18_takeover_switches_previous_off_or_is_refused : forall kinds s i v, i < length kinds -> LemmasCo.Inv kinds s ->
+  let '(s', r) := Co.step kinds s (Co.WriteT i v) in
+  match r with
+  | ROk _ => Co.by_ s' = S i /\ (forall j, nth j (Co.act s') false = true <-> j = i)
+  | RErr _ => s' = s /\ exists j, Co.by_ s = S j /\ j <> i /\ LemmasCo.failing kinds s j = true
+  end.
+Proof. intros kinds s i v Hi HI. exact (LemmasCo.takeover kinds s i v Hi HI). Qed.
+
+(* every single step keeps the invariant (this is what makes the order inside activate_control matter) *)
+Theorem C18_control_step_invariant : forall kinds s o,
+  LemmasCo.op_wf kinds o -> LemmasCo.self_controlled_fails kinds s o = false -> LemmasCo.Inv kinds s ->
+  LemmasCo.Inv kinds (fst (Co.step kinds s o)).
+Proof. intros kinds s o Hw Hg HI. exact (LemmasCo.step_inv kinds s o Hw Hg HI). Qed.
 
 (* non-vacuity: concrete histories *)
 Example C18_demo_struct :
@@ -116,12 +135,28 @@ Example C18_demo_floatenum :
   let s := Fe.run Refuted.L_desc [Fe.WriteF 1%Z] in (Fe.ci s, Fe.cf s, rev (Fe.evs s)) = (1%Z, 1%Z, [(0, [1%Z]); (1, [1%Z]); (0, [1%Z])]).
 Proof. vm_compute. reflexivity. Qed.
 Example C18_demo_control :
-  let s := Co.run 3 [Co.WriteT 0 1%Z; Co.WriteT 2 5%Z] in
+  let s := Co.run [0; 0; 0] [Co.WriteT 0 1%Z; Co.WriteT 2 5%Z] in
   (Co.by_ s, Co.act s) = (3, [false; false; true]) /\ In (10, [0%Z]) (Co.evs s).
 Proof. vm_compute. split; [reflexivity|]. right. right. right. left. reflexivity. Qed.
+(* take-over from a safe-value writer: the output went through controlled_by = self and target 0 in the middle *)
+Example C18_demo_control_safe_writer :
+  let s := Co.run [1; 0] [Co.WriteT 0 1%Z; Co.WriteT 1 5%Z] in
+  (Co.by_ s, Co.act s, Co.otarget s) = (2, [false; true], 0%Z) /\
+  rev (firstn 8 (Co.evs s)) = [(0, [0%Z]); (1, [0%Z]); (10, [0%Z]); (1, [0%Z]); (10, [0%Z]); (0, [2%Z]); (12, [1%Z]); (13, [5%Z])].
+Proof. vm_compute. split; reflexivity. Qed.
+(* refused take-over, and a fault inside a generated struct read that is admissible (first member raises) *)
+Example C18_demo_control_refused :
+  let s := Co.run [2; 0] [Co.WriteT 0 1%Z; Co.CFault [true]; Co.WriteT 1 5%Z] in (Co.by_ s, Co.act s) = (1, [true; false]).
+Proof. vm_compute. reflexivity. Qed.
+Example C18_demo_struct_fault :
+  LemmasSt.run_ok Refuted.L_two (St.init Refuted.L_two)
+    [St.Hw [5%Z; 6%Z]; St.Fault [true; false] []; St.ReadS; St.Fault [] []; St.WriteM 1 3%Z] /\
+  St.cst (St.run Refuted.L_two [St.Hw [5%Z; 6%Z]; St.Fault [true; false] []; St.ReadS; St.Fault [] []; St.WriteM 1 3%Z]) = [0%Z; 3%Z].
+Proof. vm_compute. repeat split; lia. Qed.
 
 Print Assumptions C18_source_facts.
-Print Assumptions C18_struct_agree_except_unpropagated_assign.
+Print Assumptions C18_struct_agree_except_unpropagated_assign_and_partial_abort.
+Print Assumptions C18_no_fault_no_partial_abort.
 Print Assumptions C18_floatenum_value_from_consistent_init.
 Print Assumptions C18_floatenum_value_after_index_update.
 Print Assumptions C18_closest.
@@ -129,10 +164,14 @@ Print Assumptions C18_limits_respected_except_shadowed.
 Print Assumptions C18_limits_respected_partial.
 Print Assumptions C18_inverted_refused.
 Print Assumptions C18_limits_in_base_range.
-Print Assumptions C18_single_controller.
-Print Assumptions C18_takeover_switches_previous_off.
+Print Assumptions C18_single_controller_except_failing_self_controlled.
+Print Assumptions C18_takeover_switches_previous_off_or_is_refused.
+Print Assumptions C18_control_step_invariant.
 Print Assumptions Refuted.C18_refuted_struct_assign_without_combined_methods.
 Print Assumptions Refuted.C18_refuted_member_assign_with_combined_methods.
 Print Assumptions Refuted.C18_refuted_floatenum_initial_cache.
 Print Assumptions Refuted.C18_refuted_floatenum_assign_float.
 Print Assumptions Refuted.C18_refuted_limits_tuple_shadows_min_max.
+Print Assumptions Refuted.C18_refuted_struct_write_partial_failure.
+Print Assumptions Refuted.C18_refuted_struct_read_partial_failure.
+Print Assumptions Refuted.C18_refuted_self_controlled_switch_off_fails.
